@@ -322,7 +322,7 @@ func TestCheck(t *testing.T) {
 	r := mon.New("C06")
 	defer r.Flush()
 	if os.Getenv("VERIF_REPLAY") == "" {
-		r.Watchdog(60 * time.Second)
+		r.Watchdog(20 * time.Second)
 	}
 	proj.CutV4Names, ref6.CutV4Names = true, true
 	var rp replay
